@@ -748,7 +748,8 @@ pub fn oracle_simple(sink: &mut Sink, line: &str, file: &[u8], k: usize, o: u32)
         }
     };
     let raw_ok = raw.iter().all(|p| p.is_ok());
-    if raw.len() as u64 > pc.records {
+    let raw_values = raw.iter().filter(|p| p.is_ok()).count();
+    if raw_values as u64 > pc.records {
         sink.fail("C09", "reader/raw-yields-more-than-records", line, &format!("{} items for recordCount {}", raw.len(), pc.records));
     }
     let simple = guarded(|| -> std::result::Result<Vec<std::result::Result<Point, ()>>, ()> {
